@@ -35,13 +35,14 @@ type Config struct {
 	SolverTimeoutMs int
 	Workers         int
 	Solver          SolverKind
+	ValidatePaths   int    // completed single-goroutine paths re-run natively per entry (translator validation)
 	Logic           string // SMT-LIB logic announced to the solver (QF_UFBV unless floats are involved)
 }
 
 func defaultConfig() Config {
 	return Config{Params: map[string]int64{}, Unwind: 2000, MaxSteps: 5000000, MaxDepth: 200, MaxAlloc: 4096,
 		MaxConcretize: 64, MapOrder: "two", Realloc: "double", Preempt: 2, MaxPaths: 2000000, TimeBudgetS: 600,
-		SolverTimeoutMs: 10000, Workers: 16, Solver: Z3, Logic: "QF_UFBV"}
+		SolverTimeoutMs: 10000, Workers: 16, Solver: Z3, Logic: "QF_UFBV", ValidatePaths: 24}
 }
 
 type Engine struct {
@@ -145,6 +146,7 @@ type Worker struct {
 	fninfo    map[*ssa.Function]*fnInfo
 	intrCache map[*ssa.Function]intrFn
 	runs      int
+	wantValidation func(r *Run) bool
 }
 
 func NewWorker(e *Engine, id int) (*Worker, error) {
@@ -214,6 +216,11 @@ func (w *Worker) RunPath(entry *ssa.Function, prefix []Dec) (r *Run) {
 	r.pushFrame(main, entry, nil, nil, nil)
 	r.schedule()
 	r.outcome = ODone
+	if w.wantValidation != nil && len(r.threads) == 1 && len(r.timers) == 0 && w.wantValidation(r) {
+		// solve the path condition for concrete inputs: the native run on them must pass too
+		r.witness = r.modelForPath(ODone, "", "")
+		r.witness.Observed = r.evalObserved(r.witness)
+	}
 	return r
 }
 
@@ -255,6 +262,8 @@ type Explorer struct {
 	start    time.Time
 	maxDecs  int
 	valid    []*Finding // sampled passing paths for translator validation
+	vmu      sync.Mutex
+	vtaken   int
 	seed     int64
 }
 
@@ -334,6 +343,10 @@ func (ex *Explorer) record(r *Run) {
 			ex.stop, ex.stopWhy = true, "engine error"
 		}
 	case ODone:
+		if r.witness != nil {
+			r.witness.Entry = ex.entry.Name()
+			ex.valid = append(ex.valid, r.witness)
+		}
 		if len(ex.samples) < 3 || (ex.paths%97 == int(ex.seed%97) && len(ex.samples) < 8) {
 			ex.samples = append(ex.samples, r.sample())
 		}
@@ -375,6 +388,29 @@ func (r *Run) sample() map[string]interface{} {
 	}
 }
 
+// wantValidation picks, deterministically from the seed, which completed paths are re-run natively.
+func (ex *Explorer) wantValidation(r *Run) bool {
+	max := ex.eng.cfg.ValidatePaths
+	if max <= 0 {
+		return false
+	}
+	h := uint64(ex.seed)*1099511628211 + 1469598103934665603
+	for _, d := range r.log {
+		h = (h ^ uint64(d.V+int64(d.K)*7919)) * 1099511628211
+	}
+	ex.vmu.Lock()
+	defer ex.vmu.Unlock()
+	if ex.vtaken >= max {
+		return false
+	}
+	// dense at the start (small explorations), 1 in 16 afterwards
+	if ex.vtaken < max/2 || h%16 == 0 {
+		ex.vtaken++
+		return true
+	}
+	return false
+}
+
 // Explore runs all paths of entry within the configured bounds.
 func Explore(e *Engine, entry *ssa.Function, seed int64) (*Explorer, error) {
 	ex := &Explorer{eng: e, entry: entry, outcomes: map[Outcome]int{}, covers: map[string]int{}, cuts: map[string]int{},
@@ -392,6 +428,7 @@ func Explore(e *Engine, entry *ssa.Function, seed int64) (*Explorer, error) {
 			return nil, err
 		}
 		workers[i] = w
+		w.wantValidation = ex.wantValidation
 	}
 	// warm-up: first path alone (creates method wrappers etc. single-threaded)
 	{
